@@ -51,6 +51,12 @@ def _call(d, name, seed, X, y, cand):
     if name == "Quire":
         return P.Quire(classes=[0.0, 1.0], metric="precomputed", random_state=seed).query(
             X, y, candidates=cand, batch_size=1, return_utilities=True)
+    if name.startswith("SubSamplingWrapper"):
+        # sub-sample at least as large as the candidate set: the wrapper must then be the wrapped strategy, whatever the
+        # candidate form and whether or not the other unlabeled samples are excluded from the reduced training set
+        inner = P.UncertaintySampling(method="margin_sampling", random_state=seed)
+        w = P.SubSamplingWrapper(query_strategy=inner, max_candidates=10, exclude_non_subsample=name.endswith("[exclude]"), random_state=seed)
+        return w.query(X, y, clf=_clf(d, table), fit_clf=False, candidates=cand, batch_size=1, return_utilities=True)
     if name in ("ValueOfInformationEER", "MonteCarloEER"):
         K = getattr(P, name)
         return K(random_state=seed).query(X, y, _clf(d, table, validate=True), fit_clf=True, candidates=cand, batch_size=1, return_utilities=True)
@@ -62,6 +68,7 @@ SPEC = {  # name: (independent scorer, supports feature-row candidates)
     "UncertaintySampling[margin_sampling]": (True, True), "UncertaintySampling[entropy]": (True, True),
     "QueryByCommittee": (True, True), "CoreSet": (False, True), "GreedySamplingX": (False, True), "Quire": (False, False),
     "ValueOfInformationEER": (False, False), "MonteCarloEER": (False, False),
+    "SubSamplingWrapper": (True, True), "SubSamplingWrapper[exclude]": (True, False),
 }
 
 
@@ -182,6 +189,9 @@ def _cfg_rep(tier):
     out = []
     for name in SPEC:
         if name in ("Quire", "ValueOfInformationEER", "MonteCarloEER"):
+            continue
+        if name.startswith("SubSamplingWrapper") and tier != "quick":
+            out.append(dict(name=name, n=3))
             continue
         for n in ((3,) if tier == "quick" else (3, 4)):
             if name == "Quire" and n > 3:
